@@ -180,3 +180,27 @@ def run(repo: Repo, rep: Report, tier: str) -> None:
         for fld in ("data_signal", "write_enable"):
             ok, where = slot_access(repo, fs, Slot("IRMemWrite", fld), ir_names, "store")
             rep.check(ok, "C03-R6", f"{k.name} re-points IRMemWrite.{fld}", "rewritten" if ok else f"{k.name} can eliminate the node that drives {fld} and leave the reference dangling", where or k.loc())
+
+    # ---------------- R7 ---------------------------------------------------------------
+    rep.rule("C03-R7", "what is written into a cell travels on the cell's signal: _coerce_to_signal_type returns its argument unchanged only under `its type == the cell's type`; "
+             "every other path builds a node whose output type is the cell's (projection `+ 0`, or a constant)")
+    cst = repo.func("MemoryLowerer._coerce_to_signal_type")
+    ccst = canon(cst)
+    rets7 = [n for n in walk_local(cst.node) if isinstance(n, ast.Return) and n.value is not None]
+    rep.floor("C03-R7", "returns of the write-value coercion", len(rets7), 4)
+    k7 = 0
+    for r7 in rets7:
+        k7 += 1
+        t7 = ccst.text(r7.value)
+        gs7 = cguards(cst, r7)
+        if t7 == "value_ref":
+            ok7 = any(pol and g in ("value_ref.signal_type == signal_type", "signal_type == value_ref.signal_type") or
+                      (pol and g.endswith("== signal_type") and "signal_type" in g.split("==")[0]) for g, pol in gs7)
+            rep.check(ok7, "C03-R7", f"coercion return #{k7}: the value is passed through only when it is already on the cell's signal",
+                      "guarded by type equality" if ok7 else f"returned unchanged under {[('' if p_ else 'not ') + g[:60] for g, p_ in gs7]}: the producer emits another signal than the gates and readers listen for, the cell never stores", cst.loc(r7))
+        else:
+            ok7 = (t7.startswith("self.ir_builder.arithmetic('+', value_ref, 0, signal_type") or t7.startswith("self.ir_builder.const(signal_type, "))
+            rep.check(ok7, "C03-R7", f"coercion return #{k7}: a new node on the cell's signal", t7[:80], cst.loc(r7))
+    from .shared import borrow as _borrow3
+    _borrow3(repo, rep, "C06", "C06-R9", "C03-R8", "a comparison that also drives a write enable (or data) is never inlined into an entity and removed: the usage index records the memory write's operands as consumers",
+             select=lambda o: "IRMemWrite." in o.construct, floor=2)
